@@ -44,6 +44,8 @@ def run_c01(ctx):
     # random multi-action domains in random layouts, behaviour observed through short histories
     # (forall effects whose bound variable re-uses a parameter's name are generated here only)
     rc = [gen_hist.gen_case(ctx.seed, 50000 + i, n_ops=8, with_shadow=True) for i in range(100 if quick else 2500)]
+    # nested connectives made of object (in)equalities only (the parser keeps those apart from the other members)
+    rc += [gen_hist.gen_case(ctx.seed, 53000 + i, n_ops=10, with_eqonly=True) for i in range(60 if quick else 1500)]
     for c in rc:
         c["layout"] = rng.randrange(1 << 30)
         c["weights"] = "chain"
